@@ -19,6 +19,6 @@ CONFIG = {
                     "and it is not replaced between the check and the exec (the SecureConfig doc comment leaves that to the host)",
                     "a hash.Hash whose Write never fails and whose Sum(nil) is a function of the bytes written (true of crypto hashes and of the toy hash)"],
     "timeout": {"quick": 300, "thorough": 1500},
-    "level_text": "Lean theorems over an executable model of SecureConfig.Check and of the check/launch order in Client.Start (Model/Secure.lean, Go/Subtle.lean): Go's constant-time compare returns 1 iff the byte strings are equal (ctc_eq_one_iff), the binary is launched iff checksum non-empty, hash present, file readable and h(file) = checksum (launch_iff_match / launch_only_if_match), the three error cases give their exact sentinel and no launch, the check precedes the launch in every trace \u2014 for ALL files, checksums, hash functions and configurations; one witness theorem per structural fact. Five facts (reattach guard, check before runner creation, both failure arms return, the checked path is the path os/exec runs) re-extracted from client.go each run; ~4300 real Check calls (every bit flip, every proper prefix, extensions, five hash functions incl. a toy hash) and ~80 real launches per run compared with the model; the executed file is re-hashed after a successful launch. Fifth round: Check hashes the whole file (Secure.CheckParams.wholeFile; whole_file_hashed, read_limit_witness) and two sparse 64 MiB files that differ only in their last 64 bytes. Sixth round: Dir a symbolic link with '..' in Path (rel=2 cells; found and guard the repaired defect D15; checksCmdPath rejects filepath.Join), a refusal is final (Start / Client again on a refused client launch nothing; CheckParams.everyStart, every_attempt_verifies, checked_once_witness). Seventh round: the digest written out as hexadecimal text is a different checksum (hex / HEX cells on the Start path), nothing in the package writes to a SecureConfig's Checksum (CheckParams.checksumAsGiven; given_checksum_compared, normalised_checksum_witness).",
+    "level_text": "Lean theorems over an executable model of SecureConfig.Check and of the check/launch order in Client.Start (Model/Secure.lean, Go/Subtle.lean): Go's constant-time compare returns 1 iff the byte strings are equal (ctc_eq_one_iff), the binary is launched iff checksum non-empty, hash present, file readable and h(file) = checksum (launch_iff_match / launch_only_if_match), the three error cases give their exact sentinel and no launch, the check precedes the launch in every trace \u2014 for ALL files, checksums, hash functions and configurations; one witness theorem per structural fact. Five facts (reattach guard, check before runner creation, both failure arms return, the checked path is the path os/exec runs) re-extracted from client.go each run; ~4300 real Check calls (every bit flip, every proper prefix, extensions, five hash functions incl. a toy hash) and ~80 real launches per run compared with the model; the executed file is re-hashed after a successful launch. Fifth round: Check hashes the whole file (Secure.CheckParams.wholeFile; whole_file_hashed, read_limit_witness) and two sparse 64 MiB files that differ only in their last 64 bytes. Sixth round: Dir a symbolic link with '..' in Path (rel=2 cells; found and guard the repaired defect D15; checksCmdPath rejects filepath.Join), a refusal is final (Start / Client again on a refused client launch nothing; CheckParams.everyStart, every_attempt_verifies, checked_once_witness). Seventh round: the digest written out as hexadecimal text is a different checksum (hex / HEX cells on the Start path), nothing in the package writes to a SecureConfig's Checksum (CheckParams.checksumAsGiven; given_checksum_compared, normalised_checksum_witness). Eighth round: the error arm is the first decision about Check's result (no 'this kind of error: carry on' in front of it).",
     "level_note": "Full strength on the model. Assumes a fresh hash.Hash per Check call (Check does not Reset; modelled as hasher state, reuse_witness shows the effect) and that the file is not modified between check and exec. Trusted: hash implementations, os.Open/io.Copy, os/exec path resolution (relative Path is evaluated relative to Dir).",
 }
